@@ -659,11 +659,11 @@ def truncBytes (bs : List Byte) (n : Nat) : List Byte :=
 def stepTruncate (h : H) (s : Store) (frames : Int) : H × Store × Out :=
   let h := { h with error := 0 }
   if h.mode == .r then (h, s, { ret := 1 }) else
+  -- since the TRUNC-VIO repair: SF_VIRTUAL_IO has no truncate callback; refused before the seek and before sf.frames is touched
+  if !h.canTruncate then (h, s, { ret := 1 }) else
   let (h, s, o) := stepSeek h s frames 0
   if o.ret != frames then (h, s, { ret := 1, err := h.error }) else
   let h := { h with frames := frames }
-  -- psf_ftruncate: fails (EBADF -> SFE_SYSTEM) on virtual I/O, after `sf.frames` has already been changed
-  if h.canTruncate then (h, { s with bytes := truncBytes s.bytes s.pos }, { ret := 0, err := 0 })
-  else ({ h with error := 2 }, s, { ret := -1, err := 2 })
+  (h, { s with bytes := truncBytes s.bytes s.pos }, { ret := 0, err := 0 })
 
 end Sf
